@@ -157,6 +157,10 @@ def replay_relgrid(ctx, case):
         ctx.disagreement(case, f"relation grid cell: expected {case['want']}, got {str(r[1:2])[:160]}")
 
 
+SEGMENT_LINES = ("mov %fs:(%rax,%rbx,1),%ecx", "mov %gs:0x10(%rdx,%rsi,4),%rax", "mov %rcx,%fs:-0x8(%rbp,%rdi,8)", "call *%fs:0x8(%rax,%rcx,8)",
+                 "jmp *%gs:0x0(,%rax,8)", "call *%fs:0x10(%rax)", "add %gs:0x20(,%r9,2),%r10", "lea %fs:0x18(%r12,%r13,1),%r14")
+
+
 def token_stratum(ctx, ws, n):
     """Instructions assembled by `as` and printed by objdump, including AVX-512 operands with glued decorations ({1to16}, {%k1}{z},
     {rn-sae}) and segment overrides: for a line with operands o_1..o_n, a rule naming one token of each o_k at position k (registers,
@@ -165,7 +169,7 @@ def token_stratum(ctx, ws, n):
     from jv import asmgen, refline
     rng = ctx.rng
     for _ in range(n):
-        lines = [asmgen.template(rng, 64) for _ in range(40)] + [asmgen.decorated(rng) for _ in range(25)]
+        lines = [asmgen.template(rng, 64) for _ in range(40)] + [asmgen.decorated(rng) for _ in range(25)] + list(SEGMENT_LINES)
         rng.shuffle(lines)
         r = asmgen.assemble(ws, lines, 64)
         if r is None:
@@ -175,7 +179,10 @@ def token_stratum(ctx, ws, n):
         rinsts, _ = refline.read_listing(r[1])
         cands = [ri for ri in rinsts if not ri.parsed.prefixes and ri.parsed.mnemonic.isalnum() and ri.ops_att]
         rng.shuffle(cands)
-        for ri in cands[:12]:
+        # operands that hold commas of their own (segment override with base/index, indirect through a segment) are judged in every batch
+        inner = [ri for ri in cands if any(":" in o and "," in o for o in ri.ops_att)]
+        ctx.event("token_rules_on_segment_indexed_operands", len(inner))
+        for ri in inner + [c for c in cands if c not in inner][:12]:
             names = []
             for o in ri.ops_att:
                 toks = [t for t in re.findall(r"%?[A-Za-z0-9_]+(?:-[a-z]+)?", o.lstrip("$*")) if RG.clean(t) and len(t) >= 2]
